@@ -274,6 +274,7 @@ def run(ctx, P, cs):
     nruns, nontrivial, ops_hist, fate_hist, out_hist, samples = 0, set(), {}, {}, {}, []
     compared, lines_compared = 0, 0
     mism = []
+    elsewhere = {}
     for prof, l, pl, res in results:
         nruns += 1
         fate_hist[res["fate"]] = fate_hist.get(res["fate"], 0) + 1
@@ -295,6 +296,11 @@ def run(ctx, P, cs):
             nl, mm = model.compare_one(pid, pl, mtr[hrun.hid(pl)], res)
             compared += 1
             lines_compared += nl
+            if mm and mm.get("elsewhere"):
+                # the traces part ways at an operation / in fields this property does not speak about
+                key = "%s:%s" % (mm["op"], "+".join(mm["fields"]))
+                elsewhere[key] = elsewhere.get(key, 0) + 1
+                mm = None
         if vs or (mm and mm.get("model_fatal")):
             viol.append({"tag": "monitor_" + hrun.hid(l) + prof, "kind": "property fails on the implementation" if vs else "the model reaches undefined behaviour / a hang on this history",
                          "profile": prof, "history": l, "verdicts": vs, "fate": res["fate"], "mismatch": mm,
@@ -320,6 +326,7 @@ def run(ctx, P, cs):
                    "in this property's projection; distinct by canonical text (operations, class, profile); non-trivial = at least two operations",
            "traces_validated_against_impl": compared, "trace_lines_compared": lines_compared,
            "operation_histogram": ops_hist, "outcome_histogram": out_hist, "fate_histogram": fate_hist, "samples": samples,
-           "model": minfo, "correspondence_mismatches": len(mism), "impl_wall_s": round(time.time() - t0, 1)}
+           "model": minfo, "correspondence_mismatches": len(mism),
+           "diverged_where_this_property_does_not_speak": elsewhere, "impl_wall_s": round(time.time() - t0, 1)}
     cov.update(extra)
     return {"violations": viol, "mismatches": mism, "coverage": cov}
